@@ -170,6 +170,7 @@ def run(rep, facts, tier):
                 ok = False
     rep.check(ok, 'R04.4', 'handle_repair_data_send_worker/answer-decided', 'requested sn => DATA, or sn put into the GAP set, or "all before first_available" recorded, on every path',
               'a requested sequence number can leave the repair worker with neither DATA sent nor a GAP recorded for it', rw.where())
+    rule_04_9(rep, fx, rw, og, sends)
     # (b) a recorded GAP is always sent: on `!no_longer_relevant.is_empty()` or `all_irrelevant_before.is_some()` the message goes out
     alle = list(switch_edges(rw, fx, og))
     must_send = [(s_, t_) for s_, t_, cond, lab in alle if (cond[0] == 'call' and cond[1].endswith('::is_empty') and lab is False and term_has(cond, lambda x: x[0] == 'call' and x[1].endswith('BTreeSet::new')))
@@ -361,3 +362,60 @@ def run(rep, facts, tier):
     # ------------------------------------------------------------ R04.8 crossed roles (shared lint, rdv/swaplint.py)
     from rdv import swaplint
     swaplint.run_rule(rep, facts['default'], 'R04.8', ['rtps::writer', 'rtps::rtps_reader_proxy', 'structure::cache_change', 'dds::with_key::datawriter'])
+
+
+def rule_04_9(rep, fx, rw, og, sends):
+    """send_cache_change refuses (returns without emitting anything) when the sample was written for one reader and the target is another one. In the repair worker such a
+    refusal would leave the request unanswered: the call site must know beforehand that the sample is for this reader, and otherwise record the number for GAP (R04.4)."""
+    from rdv.core import resolve_captures
+    rep.rule('R04.9', 'no silent refusal: the change handed to send_cache_change by the repair worker is known to be sendable to that reader - it comes through '
+                      'get_by_sn(sn).filter(|cc| cc.write_options.to_single_reader() is None or == this reader) or lies behind a dominating test of that condition; a sample written '
+                      'for another reader (possible without a pending gap when this reader was matched after the write) then takes the "not found" branch and is answered with a GAP')
+    P = Pos(rw)
+    n = 0
+    for bb, t in sends:
+        n += 1
+        cc = og.of_operand(t['args'][1], bb, 'term')
+        ok = False
+        # (a) filtered lookup
+        filt = []
+        term_has(cc, lambda x: x[0] == 'call' and x[1].endswith('Option::<T>::filter') and filt.append(x) is None and False)
+        term_has(cc, lambda x: x[0] == 'call' and x[1].endswith('Option::filter') and filt.append(x) is None and False)
+        for f in filt:
+            if not has_call(f[2][0], 'get_by_sn'):
+                continue
+            for k in fx.closures_of(rw):
+                if k.key not in str(f[2][1]):
+                    continue
+                ogk = Origins(k, summaries=True)
+                for kb, kt in k.calls():
+                    cr = callee_res(kt)
+                    if cr.endswith(('::eq', '::ne')) and len(kt['args']) == 2:
+                        a = [resolve_captures(fx, k, ogk.of_operand(x, kb, 'term')) for x in kt['args']]
+                        if any(has_call(x, 'to_single_reader') for x in a) and any(has_field(x, 'remote_reader_guid') and not has_call(x, 'to_single_reader') for x in a):
+                            ok = True
+                    # cc.write_options.to_single_reader().map_or(true, |g| g == this reader)  /  .is_none_or(|g| ..)
+                    if cr.rsplit('::', 1)[-1] in ('map_or', 'is_none_or') and kt['args'] and has_call(ogk.of_operand(kt['args'][0], kb, 'term'), 'to_single_reader'):
+                        dflt_ok = cr.endswith('is_none_or') or ogk.of_operand(kt['args'][1], kb, 'term') in (('const', 'bool', True), ('const', 'int', 1), ('const', 'bool', 'true'))
+                        for k2 in fx.closures_of(k):
+                            og2 = Origins(k2, summaries=True)
+                            for b2, t2 in k2.calls():
+                                if callee_res(t2).endswith('::eq') and len(t2['args']) == 2:
+                                    a2 = [resolve_captures(fx, k2, og2.of_operand(x, b2, 'term')) for x in t2['args']]
+                                    if dflt_ok and any(x == ('param', 2) for x in a2) and any(has_field(x, 'remote_reader_guid') for x in a2):
+                                        ok = True
+        # (b) dominating test in the worker itself
+        if not ok:
+            for s_, t_, cond, lab in switch_edges(rw, fx, og):
+                if cond[0] == 'call' and cond[1].endswith(('::eq', '::ne')) and len(cond[2]) == 2:
+                    x, y = cond[2]
+                    if (has_call(x, 'to_single_reader') and has_field(y, 'remote_reader_guid')) or (has_call(y, 'to_single_reader') and has_field(x, 'remote_reader_guid')):
+                        good = (cond[1].endswith('::eq') and lab is True) or (cond[1].endswith('::ne') and lab is False)
+                        none_e = [(a_, b_) for a_, b_, c_, l_ in switch_edges(rw, fx, og) if l_ == 'None' and c_[0] == 'discr' and has_call(c_[1], 'to_single_reader')]
+                        if good and P.every_path_passes(None, (bb, 'term'), via_edges=[(s_, t_)] + none_e, from_entry=True):
+                            ok = True
+        rep.check(ok, 'R04.9', 'handle_repair_data_send_worker/send#%d/sendable-to-this-reader' % n, 'the change is filtered / tested for to_single_reader() in {None, this reader} before the call',
+                  'the repair worker hands a change to send_cache_change without knowing that it may be sent to this reader: for a sample written for another reader send_cache_change '
+                  'emits nothing, the number is then marked sent, and the request is answered neither with DATA nor with a GAP (a reader matched after the write has no pending gap)',
+                  rw.where(bb))
+    rep.floor('R04.9', n, 1, 'send_cache_change calls in the repair worker')
